@@ -78,7 +78,7 @@ def generate(rng, tier="quick"):
         W.all_ref_strings(world["docs"][u], refs)
     absolute = []
     for u in world["docs"]:
-        absolute += [u, u + "#", u + "#/definitions/d0", u + "#/definitions"]
+        absolute += [u, u + "#", u + "#/definitions/n0", u + "#/definitions"]
     for mid in sorted(W.METASCHEMA_IDS.values()):
         absolute += [mid, mid + "#", mid + "#/properties/type", mid + "#/properties"]
     absolute.append("http://sim.test/root/missing.json")
